@@ -250,6 +250,9 @@ static void client_case(const char *state) {
   vn_addr4(&server, VN_LOOPBACK, 5683);
   coap_session_t *s = vn_new_client(cli, &server);
   if (!s) { puts("SETUPFAIL"); coap_free_context(cli); return; }
+  /* cq2: as after a successful Q-Block probe (the probe itself makes coap_send() wait in real
+   * I/O for its answer, which a scripted network cannot give from inside that call) */
+  if (!strcmp(state, "cq2")) s->block_mode |= COAP_BLOCK_HAS_Q_BLOCK;
   /* the outstanding request: CON GET /x with a fixed token */
   coap_pdu_t *p = coap_new_pdu(COAP_MESSAGE_CON, COAP_REQUEST_CODE_GET, s);
   static const uint8_t tok[] = {0x11, 0x22};
@@ -268,6 +271,11 @@ static void client_case(const char *state) {
                               0xff};
         for (int i = 0; i < 64; i++) m[10 + i] = (uint8_t)(i + 3);
         vn_inject_session(cli, s, m, sizeof(m));
+      } else if (!strcmp(state, "cq2")) {
+        /* first block of a Q-Block2 burst: NON 2.05, Q-Block2 (31 = 13 + 18) NUM 0 M=1 SZX 2 */
+        uint8_t m[10 + 64] = {0x52, 0x45, 0x33, 0x01, 0x11, 0x22, 0xd1, 0x12, 0x0a, 0xff};
+        for (int i = 0; i < 64; i++) m[10 + i] = (uint8_t)(i + 5);
+        vn_inject_session(cli, s, m, 10 + 64);
       } else if (!strcmp(state, "cobs")) {
         /* registration accepted: ACK 2.05 with Observe 5 */
         uint8_t m[] = {0x62, 0x45, rq->data[2], rq->data[3], 0x11, 0x22, 0x61, 0x05, 0xff, 'v'};
